@@ -24,18 +24,18 @@ MODELLED_NOT_VERIFIED = [
     "C07: RNG draws of randomly_reorient/randomly_rotate are recorded from the implementation (scripted rng) and replayed into the model",
     "C07: floating point is not modelled; all generated lengths are dyadic so that every sum, difference and halving is exact",
 ]
-EXPLANATION = ("Theorems (Props/C07.lean, about the definitions drv_c07 runs): reseed_invariant_full / reroot_at_node_invariant_full: for EVERY "
-               "setting of collapse_unrooted_basal_bifurcation and suppress_unifurcations (defaults included), every flag, every tree with a "
-               "non-unary seed, distinct leaf ids and well-formed fractions, and every internal target: leaf ids, total length and every "
-               "leaf-to-leaf path length are kept (exact rationals, None = 0) - by invert_is_chain (the inversion loop is a chain of single "
-               "root inversions), Theory/C07Path.invert_dist, and the clean-up lemmas sup_inv / collapse_inv; reseed_root_is_target / "
-               "reseed_at_root_is_target / reseed_root_shape (new root = target's own children, then the old parent LAST carrying the target's "
-               "old edge length); inversion_step_keeps_unrooted_splits_partial (one inversion keeps the normalised split set; chain not "
-               "assembled); midpoint_walk_spec_partial (the walk stops exactly at half the distance, at the TAIL node on equality; not assembled "
-               "into equidistance of rerootAtMidpoint); outgroup_first (suppress off); rooting-flag theorems for reseed, outgroup, reorient "
-               "(content) and the three hard ops (definitional); ladderize/reorder/rotate_invariant_partial (leaves and total; path lengths "
-               "under child permutation not proved). Not proved, covered by correspondence + oracle only: invariance and the two distances of "
-               "reroot_at_edge, invariance of to_outgroup_position and midpoint rooting, split sets of whole operations, leaf targets, unary seeds.")
+EXPLANATION = ("Theorems (Props/C07.lean, about the definitions drv_c07 runs; Keeps t r = same leaf ids, same total length, same length of "
+               "every leaf-to-leaf path, exact rationals, None = 0). Proved for every tree with distinct node ids, a seed with >= 2 children and "
+               "well-formed fractions, for EVERY flag setting (defaults included): reseed_invariant_full / reroot_at_node_invariant_full "
+               "(internal target), to_outgroup_invariant (any non-seed outgroup), reroot_at_edge_invariant (any length1 + length2 = edge "
+               "length), ladderize_invariant / reorder_invariant / rotate_invariant (path lengths under child permutation: Theory/C07Perm "
+               "distL_perm), reroot_at_midpoint_invariant_partial (in-edge branch complete; on-node branch assumes the returned node is "
+               "internal). Clause (c): reroot_at_edge_position (root = inserted node, children = head at length2, then tail at length1, any two "
+               "lengths). Clause (d): outgroup_first (suppress off). Clause (e): flag theorems for reseed, outgroup, reorient (content) and the "
+               "hard ops (definitional). Structure: invert_is_chain, reseed_root_is_target, reseed_at_root_is_target, reseed_root_shape. "
+               "Still _partial: midpoint_walk_spec_partial (walk stops exactly at half the distance, tail node on equality; equidistance of "
+               "rerootAtMidpoint not assembled, maximality of the pair is an input); inversion_step_keeps_unrooted_splits_partial (one step; "
+               "whole chain needs GoodL carried along). Not proved, oracle only: split sets of whole operations, leaf targets, unary seeds.")
 
 SOFT = {"reseed", "outgroup", "reorient", "rotate", "ladderize", "reorder"}
 HARD = {"rerootnode", "rerootedge", "midpoint"}
